@@ -521,24 +521,32 @@ class PdeFamily(Kernel):
             for label, adds in pde:
                 cx.zero(label, adds)
         else:
-            lemma_chain(cx, tag, pde, U(cx), Wv)
+            lemma_chain(cx, tag, pde, U(cx), Wv, cx['u:c_%s_1' % un], cx['v:c_%s_1' % vn])
         cx.eq(tag + 'vsolution adds its integrals to exactly one copy of u', cx['v:c_uans'], 1)
 
 
-def lemma_chain(cx, tag, pde, Uv, Wv):
+def lemma_chain(cx, tag, pde, Uv, Wv, cu, cv):
     """Family 1: the u- and v-integrands are written in different variables, so their sin / exp atoms have
     syntactically different arguments.  z3 is led through the proof in steps, every step a claim of its own:
+      L0  the two integrals carry the same weight (cv1 == cu1)
       L1  phase of the v-integrand == phase of the u-integrand          (on the circle)
       L2  decay exponent of the v-integrand == that of the u-integrand
-      L3  with the v-atoms replaced by the u-atoms (justified by L1, L2), every addend of a residual is
-          sin * exp * (addend with sin -> 1, exp -> 1)
+      L3  with the v-atoms replaced by the u-atoms (justified by L0, L1, L2), every addend of a residual is
+          weight * sin * exp * (addend with weight -> 1, sin -> 1, exp -> 1)
       L4  the residuals of those amplitudes vanish
-      final  the residual of the ORIGINAL terms vanishes, given function congruence for sin/exp/arccos
-             (tautologies) and the equalities L3, L4 proved just before on the same path.
-    Numeric replay: L4 and the final step are both replayed as the finite-difference residual of the real
-    weighted integrands; L1-L3 have no numeric twin (a witness for them is reported inconclusive)."""
+      final  the residual of the ORIGINAL terms vanishes, given sin_v == sin_u and exp_v == exp_u (L1, L2 and
+             function congruence) and the equalities L0, L3, L4 proved just before on the same path.
+    Numeric replay: a witness against any step is replayed as the finite-difference residual of the real
+    weighted integrands (a broken lemma is reported as a violation only if the equations themselves fail
+    at the witness)."""
     if not cx.symbolic:
+        for step in ('each integrand is amplitude * one exp * one sin', 'L0 the first integrals of u and of v - u carry the same weight',
+                     'L1 phases agree on the circle', 'L2 decay exponents agree on the circle'):
+            for label, adds in pde:
+                cx.zero(tag + step, adds)
         for label, adds in pde:
+            for i in range(len(adds)):
+                cx.zero(label + ' L3 addend %d = weight*sin*exp*amplitude' % i, adds)
             cx.zero(label + ' [amplitudes]', adds)
             cx.zero(label, adds)
         return
@@ -552,17 +560,25 @@ def lemma_chain(cx, tag, pde, Uv, Wv):
     cx.eq(tag + 'L1 phases agree on the circle', SymReal(sw.args[1]), SymReal(su.args[1]),
           when=congruence(cx, [SymReal(sw), SymReal(su)], names=('arccos',)))
     cx.eq(tag + 'L2 decay exponents agree on the circle', SymReal(ew.args[1]), SymReal(eu.args[1]))
+    cut, cvt = term_of(cu), term_of(cv)
+    cx.eq(tag + 'L0 the first integrals of u and of v - u carry the same weight', cv, cu)
     unify = {sw: su, ew: eu}
     strip = {su: T.ONE, eu: T.ONE}
     SE = T.mul(su, eu)
     hyp = []
+    if cut.op != 'const':
+        if cvt is not cut:
+            unify[cvt] = cut
+            hyp.append(T.eq(cvt, cut))
+        strip[cut] = T.ONE
+        SE = T.mul(SE, cut)
     for label, adds in pde:
         amps = []
         for i, a in enumerate(adds):
             a1 = T.substitute(term_of(a), unify)
             amp = T.substitute(a1, strip)
             fact = T.eq(a1, T.mul(SE, amp))
-            cx.true(label + ' L3 addend %d = sin*exp*amplitude' % i, SymBool(fact))
+            cx.true(label + ' L3 addend %d = weight*sin*exp*amplitude' % i, SymBool(fact))
             hyp.append(fact)
             amps.append(SymReal(amp))
         cx.zero(label + ' [amplitudes]', amps)
@@ -570,8 +586,7 @@ def lemma_chain(cx, tag, pde, Uv, Wv):
         for a in amps:
             tot = T.add(tot, term_of(a))
         hyp.append(T.eq(tot, T.ZERO))
-    cong = congruence(cx, [Uv, Wv])
-    w = SymBool(T.land(*([cong.t] if cong is not None else []) + hyp))
+    w = SymBool(T.land(T.eq(sw, su), T.eq(ew, eu), *hyp))
     for label, adds in pde:
         cx.zero(label, adds, when=w)
 
